@@ -43,7 +43,8 @@ def cases(tier, seed):
             multi = n in pzoo.NEEDS_MULTI or (n in pzoo.MULTIVARIATE_OK and rng.random() < 0.5)
             nt = int(rng.integers(max(pzoo.MIN_LEN.get(n, 10), 10), 33))
             yield {"est": n, "ni": int(rng.integers(3, 13)), "nc": int(rng.integers(2, 4)) if multi else 1, "nt": nt, "cells": "SA"[int(rng.integers(0, 2))],
-                   "dseed": int(rng.integers(0, 2 ** 31)), "eseed": int(rng.integers(0, 100))}
+                   "dseed": int(rng.integers(0, 2 ** 31)), "eseed": int(rng.integers(0, 100)),
+                   "unequal": bool(n in pzoo.UNEQUAL_OK and rng.random() < 0.5)}
 
 
 def _apply_fns(name, est):
@@ -65,8 +66,16 @@ def run_case(case, ctx):
     rng = np.random.default_rng([case["dseed"], 1616])
     ni, nc, nt = case["ni"], case["nc"], case["nt"]
     pos = name in ("row_log",)
-    Xtr, ytr, _ = pzoo.make_panel(rng, max(ni, 8), nc, nt, cells=case["cells"], positive=pos, plateaus=name == "plateau")
-    X, ycls, A = pzoo.make_panel(rng, ni, nc, nt, cells=case["cells"], positive=pos, plateaus=name == "plateau")
+    ltr = lte = None
+    if case.get("unequal"):
+        # unequal-length series: the fitted map (pad length / truncation bounds learned in fit) must not depend on which other
+        # instances share the call; lengths of the applied panel stay within the range seen in fit
+        lo = max(pzoo.MIN_LEN.get(name, 3), nt // 2)
+        ltr = [int(v) for v in rng.integers(lo, nt + 1, size=max(ni, 8))]
+        ltr[0], ltr[1] = nt, lo
+        lte = [int(v) for v in rng.integers(lo, nt + 1, size=ni)]
+    Xtr, ytr, _ = pzoo.make_panel(rng, max(ni, 8), nc, nt, cells=case["cells"], positive=pos, plateaus=name == "plateau", lengths=ltr)
+    X, ycls, A = pzoo.make_panel(rng, ni, nc, nt, cells=case["cells"], positive=pos, plateaus=name == "plateau", lengths=lte)
     labels = np.array(["a", "b"])[ytr]
     yfit = ytr.astype(float) + 0.1 * rng.normal(size=len(ytr)) if name in pzoo.REGRESSORS else labels
     est = pzoo.build(name, case["eseed"])
@@ -134,12 +143,22 @@ def run_case(case, ctx):
             ctx.check("subselection", len(O) == len(sel) and all(_req(O[k], B[sel[k]]) for k in range(len(sel))),
                       "subselection:%s:%s:differs-from-batch-rows" % (name, fname), "a sub-selection with repetition does not reproduce the batch rows", selection=sel)
         # container at apply time: the same data as a 3-d array
+        if A is None:
+            ctx.seen("container.apply", 0)
+            continue
         ok, o = ctx.call("apply:exception:%s:%s:numpy-input" % (name, fname), f, A.copy())
         if ok:
             O = pzoo.canon(o)
             ctx.check("container.apply", len(O) == ni and all(_req(O[k], B[k]) for k in range(ni)), "container:%s:%s:3d-array-input-differs-from-nested" % (name, fname),
                       "passing the same data as a 3-d array gives another result than the nested DataFrame")
     # container at fit time
+    if ltr is not None:
+        ctx.seen("container.fit", 0)
+        ctx.event(est=name, shape=[ni, nc, nt], cells=case["cells"], unequal=True)
+        ctx.tag("est:" + name)
+        ctx.tag("unequal-lengths")
+        ctx.nontrivial = ni >= 3
+        return
     est2 = pzoo.build(name, case["eseed"])
     Atr = np.array([[np.asarray(Xtr.iloc[i, j], dtype=float) for j in range(nc)] for i in range(len(Xtr))])
     try:
